@@ -360,6 +360,9 @@ class FSM(object):
             if self.hold_time > 0:
                 self.keep_alive_timer.reset(self.keep_alive_time)
                 self.hold_timer.reset(self.hold_time)
+            else:    # holdTime == 0
+                self.keep_alive_timer.cancel()
+                self.hold_timer.cancel()
             self.state = bgp_cons.ST_OPENCONFIRM
 
         elif self.state == bgp_cons.ST_OPENCONFIRM:
@@ -455,11 +458,13 @@ class FSM(object):
 
         if self.state == bgp_cons.ST_OPENCONFIRM:
             # State OpenSent, event 26
-            self.hold_timer.reset(self.hold_time)
+            if self.hold_time > 0:
+                self.hold_timer.reset(self.hold_time)
             self.state = bgp_cons.ST_ESTABLISHED
         elif self.state == bgp_cons.ST_ESTABLISHED:
             # State Established, event 26
-            self.hold_timer.reset(self.hold_time)
+            if self.hold_time > 0:
+                self.hold_timer.reset(self.hold_time)
         elif self.state in (bgp_cons.ST_CONNECT, bgp_cons.ST_ACTIVE):
             # States Connect, Active, event 26
             self._error_close()
